@@ -25,6 +25,7 @@ type Program struct {
 	Patterns  []*Contract              // trusted contracts whose key ends in ".*"
 	UFuns     map[string]*UFun
 	Defines   map[string]*Define
+	Axioms    []*Clause
 	Impls     map[string]*ImplDecl // iface key -> declaration
 	ImplType  map[string]types.Type
 	LoadErrs  []string
@@ -172,6 +173,7 @@ func (p *Program) addSpecs(sf *SpecFile) error {
 	for _, im := range sf.Impls {
 		p.Impls[im.Iface] = im
 	}
+	p.Axioms = append(p.Axioms, sf.Axioms...)
 	for _, c := range sf.Contracts {
 		if strings.HasSuffix(c.Key, ".*") {
 			p.Patterns = append(p.Patterns, c)
